@@ -298,6 +298,24 @@ func (e *Engine) discharge1(o *Obligation, dir string, idx int, timeoutS int, se
 		o.Solver = "none"
 		return
 	}
+	// z3 5.1.0 was caught answering unsat on satisfiable problems over nested sequences ([][2][]byte): on such a
+	// problem a z3 unsat only counts when cvc5 confirms it (every tier)
+	if !coverOnly && win.status == "unsat" && strings.HasPrefix(win.solver, "z3") && strings.Contains(body.Text, "(Seq (Seq") {
+		r := runSolver(context.Background(), solvers[1], write(solvers[1]), timeoutS, seed)
+		all = append(all, r)
+		switch r.status {
+		case "unsat":
+			win = &r
+		case "sat":
+			win = &r
+		default:
+			o.Status = "unknown"
+			o.Solver = "none"
+			o.Time = win.secs + r.secs
+			o.Output = fmt.Sprintf("z3 answered unsat on a problem over nested sequences and cvc5 did not confirm it (%s); z3 is not trusted on this fragment\n", r.status)
+			return
+		}
+	}
 	// thorough tier: an unsat answer of one solver family is re-checked by the other one on the full problem; a
 	// contradicting "sat" is reported as a failed obligation (solver disagreement), never silently accepted
 	if crossCheck && !coverOnly && win.status == "unsat" {
